@@ -68,6 +68,8 @@ def gen(t, tier):
             ops.insert(t.choice(len(ops) + 1), _gen_defrag(t))
         ops.append(_gen_defrag(t))
         sc['ops'] = ops
+        if t.chance(0.3):
+            sc['fault'] = {'errno': t.pick(['ENOSPC', 'EIO']), 'sticky': bool(t.chance(0.6)), 'at': t.choice(60)}
     elif t.chance(0.35):
         # contention: three or four writers, every operation a store or a remove in ONE bundle (the windows that need a
         # third party - a lock file removed under its new holder - only open with more than two writers)
@@ -115,6 +117,15 @@ def _gen_defrag(t):
 
 
 def shrink(sc):
+    if sc.get('fault'):
+        c = copy.deepcopy(sc)
+        del c['fault']
+        yield c
+        if sc['fault']['at'] > 0:
+            for a in (0, sc['fault']['at'] // 2, sc['fault']['at'] - 1):
+                c = copy.deepcopy(sc)
+                c['fault']['at'] = a
+                yield c
     for c in M.shrink_ops(sc):
         if c['mode'] == 'seq' and not any(o[0] == 'defrag' for o in c['ops']) and \
                 any(o[0] == 'defrag' for o in sc['ops']):
@@ -219,7 +230,16 @@ def _defrag(w, runner_cache, version, pool, model_get, op, what, probes):
         probes['defrag_leftover_tmp'] = probes.get('defrag_leftover_tmp', 0) + 1
 
 
+def _injected(name, key):
+    import errno
+    code = getattr(errno, name)
+    e = OSError(code, os.strerror(code), str(key))
+    e.injected = True
+    return e
+
+
 def _run_seq(sc, tape, b, name, probes):
+    faults = {}
     version = sc['version']
     w = World(tape, with_sched=False)
     v = None
@@ -232,13 +252,42 @@ def _run_seq(sc, tape, b, name, probes):
             for c in sc['pool']:
                 ind = BP.read_tree(tree, version, c)
                 exp = runner.model.get(M.akey(c, None))
+                fk = runner.failed_keys
+                if fk is not None and M.akey(c, None) in fk and (ind is None or ind in fk[M.akey(c, None)]):
+                    continue        # address of the call that met the injected I/O error: old, new or missing
                 if ind != exp:
                     raise M.Mismatch('parser-disagrees', 'address %s: independent reader finds %s, model says %s' % (
                         tuple(c), C.describe(ind), C.describe(exp)))
         runner = M.Runner(b, lambda: C.make_cache(b), sc['pool'], [None], after_mutation=after)
+        runner.clock = w.clock
+        fault = sc.get('fault')
+        fstate = {'n': 0, 'fired': False, 'call': None}
+
+        def hook(op, key, proc):
+            # one store/remove of the history fails with an I/O error at a seeded file-system operation; a sticky fault
+            # (disk full) also fails every later write of the same call, including the flush that close() retries
+            if fstate['fired'] and fault.get('sticky') and runner.in_mutation and runner.call_seq == fstate['call'] and op == 'write':
+                faults['io_error_repeated'] = faults.get('io_error_repeated', 0) + 1
+                raise _injected(fault['errno'], key)
+            if not runner.in_mutation or fstate['fired'] or op not in ('write', 'rename', 'open', 'mkdir', 'unlink', 'ftruncate'):
+                return None
+            fstate['n'] += 1
+            if fstate['n'] - 1 == fault['at']:
+                fstate['fired'] = True
+                fstate['call'] = runner.call_seq
+                runner.fault_in_call = True
+                faults['io_error_' + fault['errno']] = faults.get('io_error_' + fault['errno'], 0) + 1
+                raise _injected(fault['errno'], key)
+            return None
+        if fault:
+            w.fs.fault_hook = hook
         try:
             for i, op in enumerate(sc['ops']):
                 w.clock.now += 0.25
+                if fstate['fired'] and not fstate.get('validated'):
+                    # the call that met the I/O error has returned: whatever it left behind must still be a valid bundle
+                    fstate['validated'] = True
+                    _validate(w, version, 'after a store/remove that failed with %s' % fault['errno'])
                 if op[0] == 'defrag':
                     _defrag(w, runner.cache, version, sc['pool'], None, op, 'op#%d defrag(min_percent=%s, min_bytes=%s)' % (
                         i, op[1], op[2]), probes)
@@ -246,8 +295,10 @@ def _run_seq(sc, tape, b, name, probes):
                     runner.sweep('op#%d after defrag' % i)
                 else:
                     runner.apply(op, i)
+            if fstate['fired'] and not fstate.get('validated'):
+                _validate(w, version, 'after a store/remove that failed with %s' % fault['errno'])
         except M.Mismatch as m:
-            v = {'sig': 'C19:%s:%s' % (m.kind, name), 'msg': m.msg}
+            v = {'sig': 'C19:%s:%s%s' % (m.kind, name, ':after-io-fault' if fstate['fired'] else ''), 'msg': m.msg}
         except Exception as ex:
             import traceback
             if 'mapproxy' in ' '.join(f.filename for f in traceback.extract_tb(ex.__traceback__)[-3:]):
@@ -259,7 +310,7 @@ def _run_seq(sc, tape, b, name, probes):
     probes['fragmenting_ops'] = frag
     return {'violation': v, 'digest': C.digest_of('seq', sc['version'], sc['ops']),
             'nontrivial': frag > 0, 'steps': len(sc['ops']), 'sim_time': 0.25 * len(sc['ops']),
-            'faults': {}, 'probes': probes,
+            'faults': faults, 'probes': probes,
             'sample': {'mode': 'seq', 'backend': name, 'ops': [M._opstr(o) if o[0] != 'defrag' else 'defrag %s %s' % (o[1], o[2])
                                                                for o in sc['ops'][:14]]}}
 
